@@ -214,6 +214,15 @@ func runCheck(prop, tier, repo, verif string, keep bool, only string, verbose bo
 			canaries = append(canaries, r.Canary)
 		}
 	}
+	for _, k := range loadKnown(verif) {
+		if k.Property == prop && k.Status == "known" {
+			for _, o := range obs {
+				if o.Name == k.Obligation {
+					o.Expected = true
+				}
+			}
+		}
+	}
 	if tier != "thorough" {
 		v.solveBundles(obs, scratch, 12)
 	}
